@@ -94,6 +94,28 @@ func (P *Program) resolve(v ssa.Value, deep bool) []ssa.Value {
 				}
 			}
 			add(x)
+		case *ssa.Call:
+			if deep {
+				if rets := P.helperReturns(x, 0); rets != nil {
+					for _, r := range rets {
+						walk(r)
+					}
+					return
+				}
+			}
+			add(x)
+		case *ssa.Extract:
+			if deep {
+				if call, ok := x.Tuple.(*ssa.Call); ok {
+					if rets := P.helperReturns(call, x.Index); rets != nil {
+						for _, r := range rets {
+							walk(r)
+						}
+						return
+					}
+				}
+			}
+			add(x)
 		case *ssa.Field:
 			if vals, ok := P.fieldSources(x.X.Type(), x.Field); ok && deep {
 				for _, s := range vals {
@@ -805,5 +827,55 @@ func (P *Program) ResolveThroughCalls(v ssa.Value, depth int) []ssa.Value {
 			}
 		})
 	}
+	return out
+}
+
+// anchorPrefixes: product functions that the rules refer to by name. A call of any other product function with
+// a body ("helper") is transparent for deep origin resolution: its result is described by what it returns, so
+// that extracting or inlining a helper does not change provenance.
+var anchorPrefixes = []string{
+	"indexing.", "util.", "(util.", "(*util.", "config.", "(*config.", "codes.", "reporting.", "(*reporting.",
+	"annotations.ExtractReceiverType", "annotations.ReadAllAnnotations", "annotations.parse", "(*annotations.PackageAnnotations).",
+	"ignore.ReadIgnoreAnnotations", "ignore.findInlineNode", "ignore.findNextNodeAfterComment", "ignore.parseIgnoreAnnotation",
+	"implements.", "analyzer.", "testonly.CheckTestOnly", "immutable.CheckImmutable", "constructor.CheckConstructor", "packageonly.CheckPackageOnly",
+}
+
+func (P *Program) isAnchor(fn *ssa.Function) bool {
+	n := FuncName(fn)
+	for _, p := range anchorPrefixes {
+		if strings.HasPrefix(n, p) {
+			return true
+		}
+	}
+	return false
+}
+
+// helperReturns: the values result #idx of the called helper may be (nil if the callee is not a transparent helper).
+func (P *Program) helperReturns(call *ssa.Call, idx int) []ssa.Value {
+	callee := call.Call.StaticCallee()
+	if callee == nil || !P.IsProductFunc(callee) || len(callee.Blocks) == 0 || P.isAnchor(callee) || callee.Parent() != nil {
+		return nil
+	}
+	res := callee.Signature.Results()
+	if idx >= res.Len() {
+		return nil
+	}
+	if b, ok := res.At(idx).Type().Underlying().(*types.Basic); ok && b.Kind() == types.Bool {
+		return nil // predicates are summarised, not inlined
+	}
+	if P.helperBusy == nil {
+		P.helperBusy = map[*ssa.Function]bool{}
+	}
+	if P.helperBusy[callee] {
+		return nil
+	}
+	P.helperBusy[callee] = true
+	defer delete(P.helperBusy, callee)
+	var out []ssa.Value
+	allInstrs(callee, func(b *ssa.BasicBlock, ins ssa.Instruction) {
+		if r, ok := ins.(*ssa.Return); ok && idx < len(r.Results) {
+			out = append(out, r.Results[idx])
+		}
+	})
 	return out
 }
